@@ -31,6 +31,18 @@ Theorem C12_searched_cap_contains_search_cap : forall r, 0 <= r <= 180 ->
   0 < src_cover_pad /\ src_cover_cosine r <= cos (rad r) /\ (r < 180 -> src_cover_cosine r < cos (rad r)).
 Proof. exact cover_cap. Qed.
 
+(* Hence every point whose true separation from the centre is within the search radius lies
+   inside the cap { v | v . c >= d } that Matcher::match hands to the triangle search
+   (SpatialDomain::setRaDecD(ra, dec, d)), strictly inside unless the radius is 180 degrees.  This
+   reduces hypothesis H_cover of the discrete theorems to the contract of the JHU library
+   ("every triangle that contains a point of the cap is listed", "lookupID returns a triangle
+   containing the point"). *)
+Theorem C12_points_within_radius_lie_in_searched_cap : forall r ra1 dec1 ra2 dec2, 0 <= r <= 180 ->
+  true_sep ra1 dec1 ra2 dec2 <= r ->
+  src_cover_cosine r <= dot (point (rad ra1) (rad dec1)) (point (rad ra2) (rad dec2))
+  /\ (r < 180 -> src_cover_cosine r < dot (point (rad ra1) (rad dec1)) (point (rad ra2) (rad dec2))).
+Proof. exact within_radius_in_cap. Qed.
+
 (* Soundness of the per-case certificates (closed by Interval in generated files): bounds on the
    haversine give bounds on the true separation. *)
 Theorem C12_separation_certificate_sound : forall ra1 dec1 ra2 dec2 lo hi,
